@@ -3,9 +3,11 @@ import Splipy.Lemmas.C18Sort
 import Splipy.Lemmas.C18Ifem
 import Splipy.Lemmas.C18IfemB
 import Splipy.Lemmas.C18Faces
+import Splipy.Lemmas.C18FacesB
 import Splipy.Lemmas.C18NumberingE
 import Splipy.Lemmas.C18Example
 import Splipy.Lemmas.C18Cps
+import Splipy.Lemmas.C18Plans
 import Splipy.Lemmas.C18Witness
 
 /-!
@@ -120,7 +122,8 @@ theorem C18_numbering_counterexample :
     (`C18_numbering_counterexample`: it fails for edge-only / corner-only contact; the harness also
     shows it failing for an L-shape whose corner patch is added last, and for self-connected
     patches); the statement is about `numberPlans` on plans with the hypotheses above rather than
-    about the catalogue (`C17_catalogue_canonical` is only partially proved); the `cps()` clause is
+    about the catalogue (the tie is `C18_plans_of_catalogue_partial`: it needs the ownership
+    invariant `PlansInv`, which C17's catalogue theorems do not provide); the `cps()` clause is
     `C18_cps_partial`. -/
 theorem C18_numbering_partial {γ : Type} [Inhabited γ] (plans : List PatchPlan) (P : List (NdArr γ))
     (hcompat : Compat (generateAll plans 0).1 P)
@@ -168,6 +171,39 @@ example : ∃ (plans : List PatchPlan) (P : List (NdArr (List ℚ))) (N : Array 
   · exact C18W.face_plan_run.1
   · exact C18W.face_plan_run.2.1
   · exact C18W.face_points_nonjunk
+
+/-- **The catalogue's numbering is the history's numbering, under the ownership invariant.**
+    `PlansInv sm objs` states precisely what the numbering needs from the catalogue state `sm`
+    after the patches `objs` (top-dimensional, each a new top node) were added: one top node per
+    patch in insertion order storing the patch; one codimension-1 node per section; the node of the
+    face `(k, i)` stores the object of the FIRST occurrence `firstOcc objs k i` of that face in the
+    history (`sameEntity` = `Orientation.compute` does not raise), is OWNED by the top node of that
+    patch, and views that node's number array through the last section of it showing the face.
+    Then the plans read off the catalogue are `plansOfObjs objs`, and `generate_cp_numbers()` on the
+    catalogue returns exactly what `numberPlans (plansOfObjs objs)` returns — the function of
+    `C18_numbering_partial` / `C18_numbering_counterexample`.
+
+    PARTIAL: `PlansInv` itself is not proved for the catalogue of a history.  Its node-identity part
+    follows from C17 (`C17_catalogue_counts`: a lower link IS the node `F` iff the section is `≈` to
+    `F`'s object; `nodes(P)` duplicate free); its OWNERSHIP part (owner = creator, object of the
+    first occurrence, creation order of the top nodes) is not tracked by C17's invariant `Inv` and
+    would need the same induction over `lookup`/`_add` with `owner` and creation order added.  It is
+    checked on every generated history by the `plans` observable of the correspondence run (real
+    ownership and orientations = `plansOfObjs`; catalogue plans of the model = `plansOfObjs`). -/
+theorem C18_plans_of_catalogue_partial (sm : SplineModel) (objs : List Obj) (h : PlansInv sm objs) :
+    sm.plans = plansOfObjs objs ∧
+    ∀ r, sm.generateCpNumbers = .ok r → numberPlans (plansOfObjs objs) = .ok (r.cp, r.ncps) := by
+  have hp := plans_eq_of_inv sm objs h
+  refine ⟨hp, fun r hr => ?_⟩
+  unfold SplineModel.generateCpNumbers at hr
+  have hp' : sm.tops.map (planOf sm (allViews sm)) = plansOfObjs objs := hp
+  simp only [hp', bind, Except.bind, pure, Except.pure] at hr
+  split at hr
+  · cases hr
+  · rename_i v hv
+    simp only [Except.ok.injEq] at hr
+    subst hr
+    exact hv
 
 /-- **`cps()` indexes consistently**: if `cps()` succeeds, all numbers are non-negative and a number
     determines the control point (conclusions 1 and 3 of `C18_numbering_partial`), then the returned
@@ -254,8 +290,7 @@ theorem C18_ifem_format_bijective :
 
 /-- **The connection list names every interface exactly once, with the geometrically coincident
     face indices and their relative orientation.**  Let a fresh `SplineModel(P, D, frh)`,
-    `1 ≤ P ≤ 3`, receive any list of patches of the universe of C17 (`GU nc`: well-formed,
-    non-rational) — any insertion order, any orientation of every patch, any twins policy.  Then
+    `1 ≤ P ≤ 3`, receive any list of patches of the universe of C17 (`GU nc`: well-formed) — any insertion order, any orientation of every patch, any twins policy.  Then
     `connections()` does not raise; let `cs` be its result.  With `≈` = "`Orientation.compute` does not raise" (`Equiv`;
     by `C17_compute_sound` an orientation mapping net and bases of one object onto the other):
     * `cs`, read as quadruples `(master, midx, slave, sidx)` (0-based), is the list `connPairs`,
@@ -271,10 +306,10 @@ theorem C18_ifem_format_bijective :
     The catalogue facts used are `C17_catalogue_counts` (`higher_nodes` = incidences, a lower link
     IS the node `F` iff the section is `≈` to `F`'s object, `nodes(P)` duplicate free).
 
-    PARTIAL only in the universe: rational patches are outside C17's catalogue theorems (the
-    weight-sum normalisation of `compute`); for them the statement is covered by the
-    correspondence run and the geometric oracle. -/
-theorem C18_ifem_connections_partial {nc : ℕ} (P D : ℕ) (frh : Bool) (ktol : ℚ)
+    The universe `GU D` of C17 comprises all well-formed patches with `D` physical components,
+    rational (positive weights) or not, of parametric dimension ≤ 3: the surface and volume models
+    of the property. -/
+theorem C18_ifem_connections {nc : ℕ} (P D : ℕ) (frh : Bool) (ktol : ℚ)
     (patches : List Obj) (tw : List ℕ) (sm0 sm : SplineModel)
     (hnew : SplineModel.new P D frh = .ok sm0)
     (hgu : ∀ p ∈ patches, GU nc p ∧ p.pardim ≤ P)
@@ -343,23 +378,37 @@ theorem C18_openfoam_order (faces : List Face) :
 
 /-! ## faces -/
 
-/-- **Faces of trilinear cells** (what is proved of the face clause of C18):
-    * a single cell has no internal face and exactly six boundary faces, with the listed vertex
-      cycles (corner `(i,j,k)` numbered `4i+2j+k`; `bdindex == 0` swaps columns 1 and 3);
-    * for a cell whose trilinear map has positive Jacobian at its 8 corners (right-handed) every
-      one of these cycles turns counter-clockwise seen from outside: at each vertex the normal
-      `(next - v) × (previous - v)` points out of the cell (sign of a 3×3 determinant, 24 cases) —
-      the normal points from the owner to the neighbour / to the outside;
-    * internal faces of a patch have `owner < neighbour` and no name;
-    * cells of an earlier top node have smaller numbers than cells of a later one, so a face on an
-      interface, which is listed by the owning (earlier) node, has `owner < neighbour`, too.
+/-- **Faces of a structured trilinear patch** (what is proved of the face clause of C18).
+    `internalFaces` / `sideFaces` are the lists `TopologicalNode.faces` concatenates, `patchFaces`
+    their concatenation for a patch that owns its six sides (a one-patch model); cells `a × b × c`,
+    cell numbers `start + C-order rank`, ANY array `cp` of control-point numbers.
+    1. **Single cell**: no internal face, six boundary faces with the listed vertex cycles (corner
+       `(i,j,k)` numbered `4i+2j+k`).
+    2. **Outward normals**: for a cell whose trilinear map has positive Jacobian at its 8 corners
+       (right-handed) each of the six cycles turns counter-clockwise seen from outside (24
+       determinant cases, any ordered field).
+    3. **Translates**: in a multi-cell patch the quad on the high side of the cell `[x,y,z]` in
+       direction `d` (listed for the internal face the cell owns, or its boundary face of index
+       `-1`) and the quad on its low side with columns 1, 3 exchanged (boundary face of index `0`)
+       are these very cycles read at the cell's corners — so 2. applies to every cell.
+    4. **Every internal face once, owner below neighbour**: the internal faces of direction `d` are
+       listed as the image of the duplicate-free list `intOwners` of owner cells, which consists
+       exactly of the cells `[i,j,k]` whose successor in direction `d` is a cell, too; owner =
+       that cell, neighbour = the successor, `owner < neighbour`, no name.
+    5. **Every boundary face once**: the faces of index `0` / `-1` of direction `d` are the images
+       of the duplicate-free lists of the cells with `d`-th index `0` / maximal; `neighbour = -1`
+       and the name is the one handed in (`bdnode.name`).
+    6. **Six faces per cell**: the number of every cell occurs exactly six times in the owner and
+       neighbour columns of `patchFaces` together.
+    7. Cells of an earlier top node have smaller numbers than cells of a later one (interface faces
+       are listed by the owning, earlier, node: `owner < neighbour`).
 
-    PARTIAL: not proved — that for multi-cell patches each quad of `internalFaces`/`sideFaces` is
-    the corresponding translate of these six cycles (it is: the same index arithmetic `quadNodes`),
-    that every cell face of the whole model is listed exactly once (internal once, interface once
-    by its owner, boundary once with the node's name), and that the neighbour cell found through
-    `Orientation.compute … map_array` is the geometrically adjacent one.  These are covered by the
-    correspondence run and the geometric oracle. -/
+    PARTIAL — not proved: the multi-patch part.  That `facesOf` assembles exactly these lists for
+    the sides a node owns (it does, by its definition, given `nhigher ∈ {1,2}`), that an interface
+    face is listed once (by the owner, none by the other node), that the neighbour cell found
+    through `Orientation.compute(bdnode.obj, neighbour section).map_array(cell numbers)` is the
+    geometrically adjacent one, and the link of 2. to `cps()` through the numbering.  These are
+    covered by the correspondence run and the geometric oracle. -/
 theorem C18_faces_partial :
     (∀ d < 3, internalFaces [1, 1, 1] oneCellCp oneCell d = []) ∧
     (∀ nm : Option String,
@@ -371,12 +420,48 @@ theorem C18_faces_partial :
     (∀ {K : Type} [Field K] [LinearOrder K] (P : ℕ → P3 K), (∀ n < 8, 0 < cornerJac P n) →
       CycleOutward P 0 1 3 2 4 ∧ CycleOutward P 4 6 7 5 4 ∧ CycleOutward P 0 4 5 1 2 ∧
       CycleOutward P 2 3 7 6 2 ∧ CycleOutward P 0 2 6 4 1 ∧ CycleOutward P 1 5 7 3 1) ∧
+    (∀ (cp : NdArr ℤ) (x y z : ℕ),
+      quadNodes cp 0 (bumpIdx [x, y, z] 0) = [4, 6, 7, 5].map (fun n => cp.get (cornerOf x y z n)) ∧
+      quadNodes cp 1 (bumpIdx [x, y, z] 1) = [2, 3, 7, 6].map (fun n => cp.get (cornerOf x y z n)) ∧
+      quadNodes cp 2 (bumpIdx [x, y, z] 2) = [1, 5, 7, 3].map (fun n => cp.get (cornerOf x y z n)) ∧
+      swap13 (quadNodes cp 0 [x, y, z]) = [0, 1, 3, 2].map (fun n => cp.get (cornerOf x y z n)) ∧
+      swap13 (quadNodes cp 1 [x, y, z]) = [0, 4, 5, 1].map (fun n => cp.get (cornerOf x y z n)) ∧
+      swap13 (quadNodes cp 2 [x, y, z]) = [0, 2, 6, 4].map (fun n => cp.get (cornerOf x y z n))) ∧
+    (∀ (a b c : ℕ) (cp cell : NdArr ℤ) (d : ℕ), d < 3 →
+      internalFaces [a, b, c] cp cell d = (intOwners [a, b, c] d).map (fun idx =>
+        { nodes := quadNodes cp d (bumpIdx idx d), owner := cell.get idx, neighbor := cell.get (bumpIdx idx d),
+          name := none }) ∧
+      (intOwners [a, b, c] d).Nodup ∧
+      ∀ i j k, [i, j, k] ∈ intOwners [a, b, c] d ↔
+        i < a ∧ j < b ∧ k < c ∧ [i, j, k].getD d 0 + 1 < [a, b, c].getD d 0) ∧
     (∀ (cs : List ℕ) (cp : NdArr ℤ) (start d : ℕ), d < cs.length → (∀ n ∈ cs, 0 < n) →
       ∀ f ∈ internalFaces cs cp (arangeArr start cs) d, f.owner < f.neighbor ∧ f.name = none) ∧
+    (∀ (a b c : ℕ) (cp cell : NdArr ℤ) (d : ℕ) (nm : Option String), d < 3 → 0 < a → 0 < b → 0 < c →
+      sideFaces [a, b, c] cp cell d false nm = (allIdx ([a, b, c].eraseIdx d)).map (fun i2 =>
+        { nodes := swap13 (quadNodes cp d (insertAt i2 d 0)), owner := cell.get (insertAt i2 d 0), neighbor := -1,
+          name := nm }) ∧
+      sideFaces [a, b, c] cp cell d true nm = (allIdx ([a, b, c].eraseIdx d)).map (fun i2 =>
+        { nodes := quadNodes cp d (insertAt i2 d (cp.shape.getD d 0 - 1)),
+          owner := cell.get (insertAt i2 d ([a, b, c].getD d 0 - 1)), neighbor := -1, name := nm }) ∧
+      (firstCells [a, b, c] d).Nodup ∧ (lastCells [a, b, c] d).Nodup ∧
+      (∀ i j k, [i, j, k] ∈ firstCells [a, b, c] d ↔ i < a ∧ j < b ∧ k < c ∧ [i, j, k].getD d 0 = 0) ∧
+      (∀ i j k, [i, j, k] ∈ lastCells [a, b, c] d ↔
+        i < a ∧ j < b ∧ k < c ∧ [i, j, k].getD d 0 + 1 = [a, b, c].getD d 0)) ∧
+    (∀ (a b c start : ℕ) (cp : NdArr ℤ) (nm : ℕ → Option String) (i j k : ℕ), i < a → j < b → k < c →
+      ((patchFaces [a, b, c] cp (arangeArr start [a, b, c]) nm).map (·.owner)).count
+          ((arangeArr start [a, b, c]).get [i, j, k]) +
+        ((patchFaces [a, b, c] cp (arangeArr start [a, b, c]) nm).map (·.neighbor)).count
+          ((arangeArr start [a, b, c]).get [i, j, k]) = 6) ∧
     (∀ (shapes : List (List ℕ)) (start i j : ℕ), i < j → j < (cellArrays shapes start).1.length →
       ∀ a ∈ ((cellArrays shapes start).1.getD i default).data.toList,
       ∀ b ∈ ((cellArrays shapes start).1.getD j default).data.toList, a < b) :=
-  ⟨oneCell_internal, oneCell_sides, fun P hJ => outward_normals P hJ, internal_owner_lt,
+  ⟨oneCell_internal, oneCell_sides, fun P hJ => outward_normals P hJ, quad_translate,
+   fun a b c cp cell d hd => ⟨internalFaces_eq _ cp cell d, intOwners_nodup _ _, fun i j k => mem_intOwners a b c d i j k hd⟩,
+   internal_owner_lt,
+   fun a b c cp cell d nm hd ha hb hc => ⟨sideFaces_first_eq _ cp cell d nm, sideFaces_last_eq _ cp cell d nm,
+     firstCells_nodup a b c d hd, lastCells_nodup a b c d hd,
+     fun i j k => mem_firstCells a b c d i j k hd ha hb hc, fun i j k => mem_lastCells a b c d i j k hd ha hb hc⟩,
+   fun a b c start cp nm i j k hi hj hk => six_faces_per_cell a b c start cp nm i j k hi hj hk,
    fun shapes start i j hij hj a ha b hb => cellArrays_blocks shapes start i j hij a ha b hb hj⟩
 
 /-- the hypothesis of the normal statement is satisfiable: the unit cube. -/
@@ -384,3 +469,12 @@ example : ∃ P : ℕ → P3 ℚ, ∀ n < 8, 0 < cornerJac P n := by
   refine ⟨fun n => ⟨(n / 4 % 2 : ℕ), (n / 2 % 2 : ℕ), (n % 2 : ℕ)⟩, ?_⟩
   intro n hn
   interval_cases n <;> simp [cornerJac, flipBit, tripleAt]
+
+/-- `PlansInv` is consistent (trivially: the empty history on the empty catalogue; a non-trivial
+    instance cannot be exhibited by evaluation because the kernel cannot run the catalogue's hash
+    maps — the non-trivial instances are the generated cases of the correspondence run). -/
+example : PlansInv ⟨1, 2, false, Model.empty 1⟩ [] := by
+  have ht : (⟨1, 2, false, Model.empty 1⟩ : SplineModel).tops = [] := by
+    simp [SplineModel.tops, Model.nodesOf, Model.empty, Model.level, uniquify, Level.get]
+  refine ⟨by rw [ht]; rfl, by rw [ht]; exact List.nodup_nil, ?_, ?_, ?_, ?_, ?_, ?_, ?_⟩ <;>
+    intro k <;> intros <;> simp at *
